@@ -27,6 +27,8 @@ func init() {
 			"(unit-agreement, client-targets-owner) shared with C09 / C07.",
 		Run: func(r *core.Run) {
 			optionGroups(r)
+			optionsCompose(r)
+			putDoesNotRetain(r)
 			forwardingCoversLocalInputs(r)
 			timeoutNeedsTTLMode(r)
 			multiKeyVisitsAll(r)
